@@ -43,7 +43,15 @@ CASE = st.tuples(st.sampled_from(["upload_dir", "upload_dir", "upload_file", "do
                                   "upload_conflict"]),
                  TREE, st.sampled_from(["", "d", "d1/d2", "/abs/d", "src", "../up"]), st.booleans(),
                  st.sampled_from(["/", "/r", "/r/sub"]), st.sampled_from([1, 3, 8192]), st.booleans(), st.booleans(),
-                 st.booleans())
+                 st.booleans(), st.one_of(st.just(0), st.integers(1, 10 ** 6)))
+
+
+def expand_tape(n):
+    """The drawn integer n > 0 stands for a whole network schedule (a pure function of n): long enough to still decide
+    latencies and segment sizes when the transfers start, after the login traffic."""
+    import random
+    r = random.Random(n)
+    return [r.randrange(7) for _ in range(3000)]
 
 
 def flat(t, root):
@@ -111,7 +119,7 @@ def mem_fs_tree(fs):
 
 
 async def _run(loop, case, info):
-    op, t, dest, write_into, cwd, block, listonly, abs_spelling, relsrc = case
+    op, t, dest, write_into, cwd, block, listonly, abs_spelling, relsrc, *seg = case
     if op == "upload_file" and write_into and dest == "":
         dest = "renamed"  # write_into with an empty destination names no file: not a meaningful call
     if ".." in dest and op not in ("upload_dir", "upload_file", "upload_twice", "upload_conflict"):
@@ -311,15 +319,19 @@ async def _run(loop, case, info):
 
 
 def check(ctx, case):
-    op, t, dest, write_into, cwd, block, listonly, abs_spelling, relsrc = case
+    op, t, dest, write_into, cwd, block, listonly, abs_spelling, relsrc, *seg = case
     info = {}
     try:
-        simnet.run(lambda loop: _run(loop, case, info))
+        # network schedule: an empty tape means zero latency and whole segments; otherwise files and listings arrive in
+        # pieces spread over (virtual) time, so that a read returns less than a large block size.  Only against servers
+        # with MLSD: on a LIST-only server a drawn schedule runs into the observation recorded in DESIGN.md section 6
+        # (unused data connection left by the refused MLSD), which is not decided yet.
+        simnet.run(lambda loop: _run(loop, case, info), tape=simnet.Tape(expand_tape(seg[0])) if seg and seg[0] and not listonly else None)
     finally:
         nt = (depth_of(t) >= 2 and len(pathlib.PurePosixPath(dest).parts) >= 1) or has_empty_dir(t) or cwd != "/"
         ctx.count(case, nt, sample=dict(op=op, tree=t, dest=dest, write_into=write_into, cwd=cwd, block=block, list_only_server=listonly),
                   classes=["op_" + op, "listonly" if listonly else "mlsd", "wi_%s" % write_into, "cwd_" + cwd,
-                           "depth_%d" % depth_of(t)] + (["empty_dir"] if has_empty_dir(t) else [])
+                           "depth_%d" % depth_of(t)] + (["empty_dir"] if has_empty_dir(t) else []) + (["network_schedule_drawn"] if seg and seg[0] and not listonly else [])
                   + (["conflict_" + info["conflict"], "conflict_refused" if info.get("refused") else "conflict_accepted"] if info.get("conflict") else [])
                   + (["conflict_at_empty_dir"] if info.get("conflict_empty_dir") else []))
 
